@@ -369,7 +369,7 @@ add('C15.params_ignored', 'C15', (PG, "    if params1.parameters != params2.para
 add('C15.reads_buffer', 'C15', (QTS, "              cast(\n                  np.ndarray, transformation_input.quant_params.quantized_data\n              ).tobytes(),", "              cast(\n                  np.ndarray, transformation_input.buffers[tensor.buffer].data\n              ).tobytes(),"),
     'C15.R3', 'new bytes derived from the buffer being overwritten')
 add('C15.buffer0', 'C15', (QTS, "  if tensor.buffer:\n    if transformation_input.quant_params.quantized_data is not None:", "  if tensor.buffer is not None:\n    if transformation_input.quant_params.quantized_data is not None:"),
-    'C15.R3', 'the shared empty buffer 0 may be overwritten')
+    (), 'buffer 0 could be written - but only a tensor WITH quantized data reaches that line, and a constant never lives in buffer 0: harmless', kind='twin')
 add('C15.valid_check', 'C15', (TIG, "          transform_type == qtyping.QuantTransformation.QUANTIZE_TENSOR\n          or transform_type == qtyping.QuantTransformation.ADD_DEQUANTIZE", "          transform_type == qtyping.QuantTransformation.QUANTIZE_TENSOR"),
     'C15.R4', 'ADD_DEQUANTIZE no longer counts as quantizing the tensor in the validity check')
 add('C15.twin_setdefault', 'C15', (FBU, "        if tensor.buffer not in buffer_to_tensor_map:\n          buffer_to_tensor_map[tensor.buffer] = []\n        buffer_to_tensor_map[tensor.buffer].append(tensor)",
@@ -646,9 +646,9 @@ add('C10.need_calibration_after_catch_all', 'C10', (RM, "    for op_quant_config
 add('C12.twin_need_calibration_regex', 'C12', (RM, "    for op_quant_config in self.get_quantization_recipe():\n      if (\n          op_quant_config['op_config']['compute_precision']",
     "    for op_quant_config in self.get_quantization_recipe():\n      if op_quant_config['regex'] is None:\n        continue\n      if (\n          op_quant_config['op_config']['compute_precision']"),
     (), 'need_calibration reads an entry-level key (not an op_config key)', kind='twin')
-add('C09.calibrate_func_per_type', 'C09', ('calibrator.py', "        op_scope = self._get_op_scope(op, subgraph.tensors)\n        algorithm_name, _ = model_recipe_manager.get_quantization_configs(\n            op_key, op_scope\n        )",
-    "        if op_key not in seen_algorithms:\n          op_scope = self._get_op_scope(op, subgraph.tensors)\n          seen_algorithms[op_key] = model_recipe_manager.get_quantization_configs(\n              op_key, op_scope\n          )[0]\n        algorithm_name = seen_algorithms[op_key]"),
-    ('C09.R10',), 'recipe looked up once per operator TYPE (seeded b5-C09)')
+add('C09.calibrate_func_per_type', 'C09', [('calibrator.py', "      for op in subgraph.operators:\n        if isinstance(op, qtyping.IOOperator):\n          op_key = op.op_key\n        else:\n          op_code = op_codes[op.opcodeIndex].builtinCode\n          if op_code not in tfl_flatbuffer_utils.TFL_OP_CODE_TO_NAME:\n            continue", "      seen_algorithms = {}\n      for op in subgraph.operators:\n        if isinstance(op, qtyping.IOOperator):\n          op_key = op.op_key\n        else:\n          op_code = op_codes[op.opcodeIndex].builtinCode\n          if op_code not in tfl_flatbuffer_utils.TFL_OP_CODE_TO_NAME:\n            continue"), ('calibrator.py', "        op_scope = self._get_op_scope(op, subgraph.tensors)\n        algorithm_name, _ = model_recipe_manager.get_quantization_configs(\n            op_key, op_scope\n        )",
+    "        if op_key not in seen_algorithms:\n          op_scope = self._get_op_scope(op, subgraph.tensors)\n          seen_algorithms[op_key] = model_recipe_manager.get_quantization_configs(\n              op_key, op_scope\n          )[0]\n        algorithm_name = seen_algorithms[op_key]")],
+    ('C09.R11',), 'recipe looked up once per operator TYPE (seeded b5-C09)')
 
 add('C03.f13', 'C03', (TIG, "          if consumer_id in producer_trans_rule.consumers:\n            producer_trans_rule.consumers.remove(consumer_id)\n        transformations.append(\n            qtyping.TransformationInst(\n                qtyping.QuantTransformation.QUANTIZE_TENSOR,\n                trans_rule.tensor_id,\n                trans_rule.producer,\n                trans_rule.consumers,\n                producer_trans_rule.parameters,",
     "          producer_trans_rule.consumers.remove(consumer_id)\n        transformations.append(\n            qtyping.TransformationInst(\n                qtyping.QuantTransformation.QUANTIZE_TENSOR,\n                trans_rule.tensor_id,\n                trans_rule.producer,\n                trans_rule.consumers,\n                producer_trans_rule.parameters,"),
@@ -718,7 +718,7 @@ add('C04.twin_moveaxis', 'C04', (MMQ, """    reduce_dims = _get_reduce_dims(quan
     return {
         "min": np.min(tensor_data, axis=reduce_dims, keepdims=True),
         "max": np.max(tensor_data, axis=reduce_dims, keepdims=True),
-    }""", """    if quantized_dim is None:
+    }""", """    if quantized_dim is None or quantized_dim >= tensor_data.ndim:
       return {
           "min": np.min(tensor_data, keepdims=True),
           "max": np.max(tensor_data, keepdims=True),
@@ -730,7 +730,7 @@ add('C04.twin_moveaxis', 'C04', (MMQ, """    reduce_dims = _get_reduce_dims(quan
     return {
         "min": np.reshape(np.min(view, axis=1), shape),
         "max": np.reshape(np.max(view, axis=1), shape),
-    }"""), (), 'the same reduction written correctly over a moved axis', kind='twin')
+    }"""), (), 'the same reduction written correctly over a moved axis (a 1-d bias of a depthwise conv has no axis 3: reduced as a whole, as before)', kind='twin')
 IU = 'utils/tfl_interpreter_utils.py'
 add('C10.signature_position', 'C10', (IU, "  signature_runner = tflite_interpreter.get_signature_runner(signature_key)\n  return signature_runner._subgraph_index  # pylint:disable=protected-access", "  keys = list(tflite_interpreter.get_signature_list())\n  return keys.index(signature_key) if signature_key is not None else 0"),
     'C10.R9', 'subgraph index taken from the position of the signature key (seeded b8-C10 / b8-C09)')
